@@ -104,12 +104,14 @@ Lemma eval_rule n ms c cenv ctx st sels b :
 Proof. reflexivity. Qed.
 Lemma eval_media n ms c cenv ctx st q b :
   eval_item (S n) ms c cenv ctx st (SMedia q b) =
-  bind (run_body (eval_item n ms c cenv ctx) b (start_atmedia st (MName q))) (fun st2 => Ok (OutDest.close st2)).
+  bind (start_atmedia st (MName q)) (fun st1 =>
+  bind (run_body (eval_item n ms c cenv ctx) b st1) (fun st2 => Ok (OutDest.close st2))).
 Proof. reflexivity. Qed.
 Lemma eval_at n ms c cenv ctx st name args b :
   eval_item (S n) ms c cenv ctx st (SAtR name args (Some b)) =
-  bind (run_body (eval_item n ms c cenv (if bytes_eqb name keyframes_name then root_ctx else ctx)) b
-          (start_atrule st name (option_map same_leaf args))) (fun st2 => Ok (OutDest.close st2)).
+  bind (start_atrule st name (option_map same_leaf args)) (fun st1 =>
+  bind (run_body (eval_item n ms c cenv (if bytes_eqb name keyframes_name then root_ctx else ctx)) b st1)
+       (fun st2 => Ok (OutDest.close st2))).
 Proof. reflexivity. Qed.
 Lemma eval_atroot n ms c cenv ctx st sels b :
   eval_item (S n) ms c cenv ctx st (SAtRoot sels b) =
@@ -145,7 +147,7 @@ Proof.
   cbn [start_rule d_frames d_root d_lost bind leaves map].
   rewrite run_body_app. rewrite decls_rule. cbn [bind app].
   rewrite run_body_cons, eval_media.
-  unfold start_atmedia. cbn [d_frames d_root d_lost rule_of]. rewrite decls_media. cbn [bind app].
+  unfold start_atmedia. cbn [d_frames d_root d_lost rule_of bind]. rewrite decls_media. cbn [bind app].
   cbn [OutDest.close d_frames d_root d_lost].
   set (body' := match idecls ds2 with [] => [] | _ :: _ => _ end).
   assert (Hb : body' = rule t ds2) by (unfold body'; destruct ds2; reflexivity).
@@ -169,7 +171,7 @@ Proof.
   cbn [start_rule d_frames d_root d_lost bind leaves map].
   rewrite run_body_app. rewrite decls_rule. cbn [bind app].
   rewrite run_body_cons, eval_at, Hkf.
-  unfold start_atrule. cbn [d_frames d_root d_lost rule_of]. rewrite Hflat. rewrite decls_at. cbn [bind app].
+  unfold start_atrule. cbn [d_frames d_root d_lost rule_of bind]. rewrite Hflat. cbn [bind]. rewrite decls_at. cbn [bind app].
   cbn [OutDest.close d_frames d_root d_lost].
   unfold drop_push. rewrite push_through_rule by reflexivity. cbn [separate bind].
   rewrite decls_rule. cbn [bind app]. rewrite close_rule_top.
@@ -188,8 +190,8 @@ Proof.
   cbn [start_rule d_frames d_root d_lost bind leaves map].
   rewrite run_body_cons, run_body_nil_fun, eval_at.
   change (bytes_eqb keyframes_name keyframes_name) with true. cbv iota.
-  unfold start_atrule. cbn [d_frames d_root d_lost rule_of].
-  change (is_flat_rule keyframes_name) with true. cbv iota.
+  unfold start_atrule. cbn [d_frames d_root d_lost rule_of bind].
+  change (is_flat_rule keyframes_name) with true. cbv iota. cbn [bind].
   rewrite run_body_cons, run_body_nil_fun, eval_rule, check_rule_true.
   cbn [negb nest map nest1 root_ctx c_s all_some].
   change (round_robin [[f]]) with [f].
